@@ -453,7 +453,26 @@ def rule_T13(text):
     non-blocking send) is written as what it is:
         match (S).verif_select_send(E) { Some(R) => ARM_SEND, None => ARM_DEFAULT }
     `Some(result)`: the send operation was ready and completed with `result` (Ok: queued; Err: the receiver is gone);
-    `None`: it was not ready (queue full) and the default arm ran. Both arm bodies are kept verbatim."""
+    `None`: it was not ready (queue full) and the default arm ran. Both arm bodies (blocks or expressions) are kept verbatim."""
+    def arm(inner, imask, start):
+        """the arm body starting at `start` (after `=>`): returns (text, end_offset_after_body)"""
+        j = start
+        while j < len(imask) and imask[j] in ' \t\n':
+            j += 1
+        if j < len(imask) and imask[j] == '{':
+            c = match_brace(imask, j)
+            return inner[j:c + 1], c + 1
+        d, e = 0, j
+        while e < len(imask):
+            ch = imask[e]
+            if ch in '([{':
+                d += 1
+            elif ch in ')]}':
+                d -= 1
+            elif ch == ',' and d == 0:
+                break
+            e += 1
+        return inner[j:e].strip(), e
     fired = 0
     while True:
         mask = code_mask(text)
@@ -471,20 +490,18 @@ def rule_T13(text):
         args = split_top_commas(inner[sop + 1:scp], imask[sop + 1:scp])
         if len(args) != 2:
             raise ExtractError('T13: send(..) with %d arguments' % len(args))
-        m2 = re.match(r'\s*->\s*(\w+)\s*=>\s*\{', imask[scp + 1:])
+        m2 = re.match(r'\s*->\s*(\w+)\s*=>', imask[scp + 1:])
         if not m2:
-            raise ExtractError('T13: `send(..) -> r => { .. }` expected')
-        a1o = scp + 1 + m2.end() - 1
-        a1c = match_brace(imask, a1o)
-        m3 = re.match(r'\s*,?\s*default\s*=>\s*\{', imask[a1c + 1:])
+            raise ExtractError('T13: `send(..) -> r => ..` expected')
+        arm1, e1 = arm(inner, imask, scp + 1 + m2.end())
+        m3 = re.match(r'\s*,?\s*default\s*=>', imask[e1:])
         if not m3:
-            raise ExtractError('T13: a `default => { .. }` arm must follow the send arm')
-        a2o = a1c + 1 + m3.end() - 1
-        a2c = match_brace(imask, a2o)
-        if imask[a2c + 1:].strip(' \n\t,') != '':
+            raise ExtractError('T13: a `default => ..` arm must follow the send arm')
+        arm2, e2 = arm(inner, imask, e1 + m3.end())
+        if imask[e2:].strip(' \n\t,') != '':
             raise ExtractError('T13: select! with more than one operation besides default')
         new = ('match (%s).verif_select_send(%s) {\n            Some(%s) => %s,\n            None => %s\n        }'
-               % (args[0].strip(), args[1].strip(), m2.group(1), inner[a1o:a1c + 1], inner[a2o:a2c + 1]))
+               % (args[0].strip(), args[1].strip(), m2.group(1), arm1, arm2))
         text = text[:m.start()] + new + text[cb + 1:]
         fired += 1
     return text, fired
